@@ -94,7 +94,7 @@ func (x *extractor) genRoutes() {
 		}
 		if fd := findFunc(api, "HTTP", "DispatchPrivate"); fd != nil {
 			if is := findIf(api, fd, "networkPassword"); is != nil {
-				privCond = exprString(api.Fset, is.Cond)
+				privCond = newEnv(api, fd).expr(is.Cond)
 				if n := len(is.Body.List); n > 0 {
 					privBody = stmtString(api.Fset, is.Body.List[n-1])
 				}
